@@ -41,7 +41,10 @@ def check_choose(case):
     names = []
     for k, v in enumerate(vals):
         kw['vars']['v_%s' % 'abcdefghij'[k]] = v
-        names.append('v_%s' % 'abcdefghij'[k])
+        # a blank choice arrives as a variable holding None, as NULL, or as an omitted slot
+        names.append('v_%s' % 'abcdefghij'[k] if v is not None else ['v_%s' % 'abcdefghij'[k], 'NULL', ''][(k + i) % 3])
+    if names and names[-1] == '':
+        names[-1] = 'NULL'
     I = 'v_idx' if case['var'] else lit(i)
     f = 'CHOOSE(%s,%s)' % (I, ','.join(names))
     r = outcome(f, kw)
@@ -337,14 +340,14 @@ def check_host_history(case):
                     raise Violation(d + 'INDEX(list,%d) -> %r' % (i, ri['error'] or ri['result']), ri['error'] or enc(ri['result']), prices[i - 1])
 
 
-vals_s = st.lists(st.one_of(st.integers(-50, 50), st.text(st.sampled_from('abc'), max_size=3), st.booleans(), st.none().map(lambda _: 0.5)), min_size=1, max_size=10)
+vals_s = st.lists(st.one_of(st.integers(-50, 50), st.text(st.sampled_from('abc'), max_size=3), st.booleans(), st.just(0.5), st.none(), st.none()), min_size=1, max_size=10)
 
 LAWS = [
     Law('choose', check_choose, quick=1500, thorough=60000, shards=(4, 8),
         strategy=st.fixed_dictionaries({'vals': vals_s, 'i': st.integers(-3, 13), 'var': st.booleans()}),
         nontrivial=lambda c: c['i'] != 1,
-        classes=lambda c: (('inside' if 1 <= c['i'] <= len(c['vals']) else 'outside'),), required=('inside', 'outside'),
-        rule='CHOOSE(i, 1-10 values of mixed types) with i in -3..13: v_i inside 1..n, an error outside'),
+        classes=lambda c: (('inside' if 1 <= c['i'] <= len(c['vals']) else 'outside'), ('blank-choice' if any(v is None for v in c['vals']) else 'no-blank')), required=('inside', 'outside', 'blank-choice'),
+        rule='CHOOSE(i, 1-10 values of mixed types incl. blanks given as blank variables, NULL or omitted slots) with i in -3..13: v_i inside 1..n (a blank when v_i is blank), an error outside'),
     Law('index', check_index, strategy=index_case(), key=index_key, classes=index_classes, quick=5000, thorough=300000, shards=(8, 16),
         required=('1d', '2d', 'negative-index', 'zero-index', 'inside-offdiag', 'beyond', 'how:lit', 'how:var', 'how:range'),
         nontrivial=lambda c: index_key(c) != '' or 'beyond' in index_classes(c) or 'inside-offdiag' in index_classes(c),
